@@ -88,6 +88,15 @@ Lemma roundtrip :
       codec_feed_all msg parse tag codec_init chunks = (map CMsg ms, mkD tt [] false false).
 Proof. intros msg parse ser tag H ms chunks. exact (codec_roundtrip msg parse ser tag H ms chunks). Qed.
 
+(* the same with the parser hypothesis only for the messages that are sent *)
+Lemma roundtrip_on :
+  forall (msg : Type) (parse : list byte -> option msg) (ser : msg -> list byte) (tag : list byte)
+         (ms : list msg) (chunks : list (list byte)),
+    Forall (fun m => parse (ser m) = Some m /\ fits tag (ser m)) ms ->
+    concat chunks = flat_map (encode_msg msg ser tag) ms ->
+    codec_feed_all msg parse tag codec_init chunks = (map CMsg ms, mkD tt [] false false).
+Proof. intros msg parse ser tag ms chunks. exact (codec_roundtrip_on msg parse ser tag ms chunks). Qed.
+
 Section Reject.
   Variable msg : Type.
   Variable parse : list byte -> option msg.
